@@ -630,13 +630,20 @@ package desync
 //@   prop C19
 //@   checks alloc
 //@   requires $consumed >= 0
-//@   modifies all, $consumed
+//@   modifies all, $consumed, $rp
 //@   ensures $consumed >= old($consumed) && ($consumed == old($consumed) || $consumed < 1<<40)
 //# a decoded table or goodbye list is never longer than the input that was read for it
 //@   ensures r1 == nil && is(r0, FormatTable) ==> 40 * len(as(r0, FormatTable).Items) <= $consumed - old($consumed)
 //@   ensures r1 == nil && is(r0, FormatGoodbye) ==> 24 * len(as(r0, FormatGoodbye).Items) <= $consumed - old($consumed)
+//# C04: what a successfully decoded index header / chunk table says about the input words
+//@   ensures @C04 r1 == nil && is(r0, FormatIndex) ==> $r[old($rp)] == as(r0, FormatIndex).Size && $r[old($rp)+8] == CaFormatIndex && $rp == old($rp) + 48 && \
+//@       $r[old($rp)+16] == as(r0, FormatIndex).FeatureFlags && $r[old($rp)+24] == as(r0, FormatIndex).ChunkSizeMin && \
+//@       $r[old($rp)+32] == as(r0, FormatIndex).ChunkSizeAvg && $r[old($rp)+40] == as(r0, FormatIndex).ChunkSizeMax
+//@   ensures @C04 r1 == nil && is(r0, FormatTable) ==> tableReadAt($r, $rid, old($rp), as(r0, FormatTable).Items) && $rp == old($rp) + 56 + 40*len(as(r0, FormatTable).Items)
 //@   loop 1: invariant 24 * len(items) <= $consumed - old($consumed) && $consumed >= old($consumed) && ($consumed == old($consumed) || $consumed < 1<<40) && len(items) == i && hdr.Size >= 16 && n == (hdr.Size - 16) / 24
 //@   loop 2: invariant 40 * len(items) <= $consumed - old($consumed) && $consumed >= old($consumed) && ($consumed == old($consumed) || $consumed < 1<<40)
+//@   loop 2: invariant @C04 d.advance == nil ==> $rp == old($rp) + 16 + 40*len(items) && hdr.Size == $r[old($rp)] && hdr.Type == $r[old($rp)+8] && \
+//@       forall k int :: 0 <= k && k < len(items) ==> $r[old($rp)+16+40*k] == items[k].Offset && items[k].Offset != 0 && $rid[old($rp)+24+40*k] == items[k].Chunk
 
 //@ func (p *Protocol) ReadMessage
 //@   prop C19
@@ -649,7 +656,7 @@ package desync
 //@   prop C19 C04
 //@   checks alloc
 //@   requires $consumed >= 0
-//@   modifies all, $consumed, $items, $alg
+//@   modifies all, $consumed, $items, $alg, $rp
 //@   safety C19
 //@   ghost@after:Next $items = as($r0, FormatTable).Items
 //@   ensures @C04 err == nil ==> tableMatches(c.Chunks, $items)
@@ -657,6 +664,9 @@ package desync
 //@   ensures @C04 err == nil ==> forall k int :: 0 <= k && k < len(c.Chunks) ==> c.Chunks[k].Size <= c.Index.ChunkSizeMax
 //@   ensures @C04 err == nil ==> forall k int :: 0 < k && k < len(c.Chunks) ==> $items[k-1].Offset <= $items[k].Offset
 //# rejection: digest flag must agree with the configured digest
+//# the returned index is the one laid out in the input: header words, then the table right behind it
+//@   ensures @C04 err == nil ==> $r[old($rp)+8] == CaFormatIndex && c.Index.FeatureFlags == $r[old($rp)+16] && c.Index.ChunkSizeMin == $r[old($rp)+24] && \
+//@       c.Index.ChunkSizeAvg == $r[old($rp)+32] && c.Index.ChunkSizeMax == $r[old($rp)+40] && tableReadAt($r, $rid, old($rp)+48, $items)
 //@   ghost@after:Algorithm $alg = $r0
 //@   ensures @C04 err == nil && $alg == crypto.SHA512_256 ==> c.Index.FeatureFlags & CaFormatSHA512256 != 0
 //@   ensures @C04 err == nil && $alg == crypto.SHA256 ==> c.Index.FeatureFlags & CaFormatSHA512256 == 0
@@ -697,6 +707,11 @@ package desync
 //@ func (i *Index) WriteTo
 //@   prop C04
 //@   requires wfChunks(i.Chunks)
+//@   ghost@after:Encode $items = as($a0, FormatTable).Items
+//# the bytes handed to the writer: 48-byte index header with this index's parameters, directly followed by
+//# the chunk table whose items are the cumulative end offsets and IDs of this index's chunks
+//@   ensures r1 == nil ==> indexAt($w, old($wn), i.Index.FeatureFlags, i.Index.ChunkSizeMin, i.Index.ChunkSizeAvg, i.Index.ChunkSizeMax) && \
+//@       tableAt($w, $wid, old($wn) + 48, $items) && tableMatches(i.Chunks, $items) && $wn == old($wn) + 48 + 56 + 40*len(i.Chunks) && r0 == $wn - old($wn)
 //# what is handed to the encoder: the header with the index parameters, then the cumulative table
 //@   oncall Encode: requires is($arg0, FormatIndex) ==> as($arg0, FormatIndex).Size == 48 && as($arg0, FormatIndex).Type == CaFormatIndex && \
 //@       as($arg0, FormatIndex).FeatureFlags == i.Index.FeatureFlags && as($arg0, FormatIndex).ChunkSizeMin == i.Index.ChunkSizeMin && \
@@ -709,19 +724,78 @@ package desync
 //@ lemma @C04 indexRoundTrip: forall a []IndexChunk, b []IndexChunk, t []FormatTableItem :: tableMatches(a, t) && tableMatches(b, t) ==> \
 //@     forall k int :: 0 <= k && k < len(a) ==> a[k].ID == b[k].ID && a[k].Start == b[k].Start && a[k].Size == b[k].Size
 
+// ---- ghost byte streams: $w/$wid = words / IDs at byte offsets of the output, $wn bytes written;
+// ---- $r/$rid = words / IDs of the input, $rp read position. The five wrappers below are the
+// ---- trusted link between encoding/binary + io and these ghost streams.
+//@ ghost var $w map[int]int
+//@ ghost var $wid map[int]ChunkID
+//@ ghost var $wn int
+//@ ghost var $r map[int]int
+//@ ghost var $rid map[int]ChunkID
+//@ ghost var $rp int
+
 //@ func (w writer) WriteUint64
 //@   prop C04 C13
+//@   trusted
 //@   pure
-//@   ensures r1 == nil ==> r0 >= 0
+//@   modifies $w, $wn
+//@   ensures r1 == nil ==> r0 == 8 * len(values) && $wn == old($wn) + 8 * len(values)
+//@   ensures r1 == nil ==> forall k int :: 0 <= k && k < len(values) ==> $w[old($wn) + 8*k] == values[k]
+//@   ensures forall j int :: j < old($wn) ==> $w[j] == old($w[j])
+//@   ensures $wn >= old($wn) && r0 >= 0
 
 //@ func (w writer) WriteID
 //@   prop C04 C13
+//@   trusted
 //@   pure
+//@   modifies $wid, $wn
+//@   ensures r1 == nil ==> r0 == 32 && $wn == old($wn) + 32 && $wid[old($wn)] == c
+//@   ensures forall j int :: j < old($wn) ==> $wid[j] == old($wid[j])
+//@   ensures $wn >= old($wn) && r0 >= 0
+
+//@ func (r reader) ReadUint64
+//@   prop C04
+//@   trusted
+//@   pure
+//@   modifies $rp, $consumed
+//@   ensures r1 == nil ==> r0 == $r[old($rp)] && $rp == old($rp) + 8 && $consumed == old($consumed) + 8
+//@   ensures $consumed >= old($consumed) && ($consumed == old($consumed) || $consumed < 1<<40)
+
+//@ func (r reader) ReadID
+//@   prop C04
+//@   trusted
+//@   pure
+//@   modifies $rp, $consumed
+//@   ensures r1 == nil ==> r0 == $rid[old($rp)] && $rp == old($rp) + 32 && $consumed == old($consumed) + 32
+//@   ensures $consumed >= old($consumed) && ($consumed == old($consumed) || $consumed < 1<<40)
+
+//# layout of the index header and the chunk table, written from the property statement:
+//# 48-byte header (size 48, type, flags, min, avg, max); table header (MAXUINT64, type), per chunk
+//# (end offset, 32-byte ID), tail (0, 0, 48, table size incl. this tail, marker)
+//@ spec func indexAt(w map[int]int, p int, flags int, mn int, av int, mx int) bool = w[p] == 48 && w[p+8] == CaFormatIndex && w[p+16] == flags && w[p+24] == mn && w[p+32] == av && w[p+40] == mx
+//@ spec func tableAt(w map[int]int, ids map[int]ChunkID, p int, its []FormatTableItem) bool = w[p] == 18446744073709551615 && w[p+8] == CaFormatTable && \
+//@     (forall k int :: 0 <= k && k < len(its) ==> w[p+16+40*k] == its[k].Offset && ids[p+24+40*k] == its[k].Chunk) && \
+//@     w[p+16+40*len(its)] == 0 && w[p+24+40*len(its)] == 0 && w[p+32+40*len(its)] == 48 && w[p+40+40*len(its)] == 16 + 40*len(its) + 40 && w[p+48+40*len(its)] == CaFormatTableTailMarker
+//# what the decoder checks of a table: header, items up to the first zero offset, second zero word, marker
+//@ spec func tableReadAt(w map[int]int, ids map[int]ChunkID, p int, its []FormatTableItem) bool = w[p] == 18446744073709551615 && w[p+8] == CaFormatTable && \
+//@     (forall k int :: 0 <= k && k < len(its) ==> w[p+16+40*k] == its[k].Offset && its[k].Offset != 0 && ids[p+24+40*k] == its[k].Chunk) && \
+//@     w[p+16+40*len(its)] == 0 && w[p+24+40*len(its)] == 0 && w[p+48+40*len(its)] == CaFormatTableTailMarker
 
 //@ func (e *FormatEncoder) Encode
 //@   prop C04 C13
 //@   safety none
 //@   pure
+//@   modifies $w, $wid, $wn
+//@   ensures $wn >= old($wn) && forall j int :: j < old($wn) ==> $w[j] == old($w[j]) && $wid[j] == old($wid[j])
+//@   ensures @C04 r1 == nil && is(v, FormatIndex) && as(v, FormatIndex).Size == 48 && as(v, FormatIndex).Type == CaFormatIndex ==> r0 == 48 && $wn == old($wn) + 48 && \
+//@       indexAt($w, old($wn), as(v, FormatIndex).FeatureFlags, as(v, FormatIndex).ChunkSizeMin, as(v, FormatIndex).ChunkSizeAvg, as(v, FormatIndex).ChunkSizeMax) && \
+//@       $w[old($wn)] == as(v, FormatIndex).Size && $w[old($wn)+8] == as(v, FormatIndex).Type
+//@   ensures @C04 r1 == nil && is(v, FormatTable) && as(v, FormatTable).Size == 18446744073709551615 && as(v, FormatTable).Type == CaFormatTable ==> \
+//@       tableAt($w, $wid, old($wn), as(v, FormatTable).Items) && r0 == 56 + 40*len(as(v, FormatTable).Items) && $wn == old($wn) + r0
+//@   loop 1: invariant $wn >= old($wn) && (forall j int :: j < old($wn) ==> $w[j] == old($w[j]) && $wid[j] == old($wid[j]))
+//@   loop 2: invariant @C04 n == 16 + 40*$i && $wn == old($wn) + n && $w[old($wn)] == t.Size && $w[old($wn)+8] == t.Type && \
+//@       (forall k int :: 0 <= k && k < $i ==> $w[old($wn)+16+40*k] == t.Items[k].Offset && $wid[old($wn)+24+40*k] == t.Items[k].Chunk) && \
+//@       (forall j int :: j < old($wn) ==> $w[j] == old($w[j]) && $wid[j] == old($wid[j]))
 
 // ---------------------------------------------------------------------------- C05: mode bits (bit-vector arithmetic, total)
 
@@ -754,3 +828,8 @@ package desync
 //@ lemma @C05 bv modeRoundTrip: forall s uint32 :: validStatType(s) && s & 4294901760 == 0 ==> f2s(s2f(s)) == s
 //# and every Go mode that StatModeToFilemode can produce survives the other way
 //@ lemma @C05 bv fileModeRoundTrip: forall s uint32 :: validStatType(s) && s & 4294901760 == 0 ==> s2f(f2s(s2f(s))) == s2f(s)
+
+//# reading back what the encoder wrote: the decoder's view of the table equals the encoder's
+//@ lemma @C04 tableBytesRoundTrip: forall w map[int]int, ids map[int]ChunkID, p int, a []FormatTableItem, b []FormatTableItem :: \
+//@     tableAt(w, ids, p, a) && (forall k int :: 0 <= k && k < len(a) ==> a[k].Offset != 0) && tableReadAt(w, ids, p, b) ==> \
+//@     len(a) == len(b) && forall k int :: 0 <= k && k < len(a) ==> a[k].Offset == b[k].Offset && a[k].Chunk == b[k].Chunk
